@@ -11,7 +11,7 @@ cd "$tmp/r" && git init -q . && git add -A >/dev/null && git -c user.email=a@b -
 if [ "$1" = "-e" ]; then
   sed -i "$2" "$tmp/r/$3" ; shift 3
 else
-  git apply "$1" || { echo "patch failed"; rm -rf "$tmp"; exit 2; }; shift
+  case "$1" in /*) pf="$1";; *) pf="$here/$1";; esac; git apply "$pf" || { echo "patch failed"; rm -rf "$tmp"; exit 2; }; shift
 fi
 [ "$1" = "--" ] && shift
 if git diff --quiet; then echo "MUTANT DID NOT CHANGE ANYTHING"; rm -rf "$tmp"; exit 2; fi
